@@ -54,6 +54,8 @@ def gpt_kwargs(case):
               update_factors_in_hook=case.get('in_hook', True), skip_layers=case.get('skip_layers'))
     if case.get('heuristic'):
         kw['assignment_strategy'] = case['heuristic']
+    if case.get('loss_scale'):
+        kw['grad_scaler'] = (lambda s=case['loss_scale']: s)
     for k in HP_KEYS:
         if k in case.get('hp', {}):
             kw[k] = hp_callable(case['hp'][k])
@@ -102,9 +104,11 @@ class GPTRank:
                 self.model.zero_grad(set_to_none=True)
                 for micro in range(c.get('accum', 1)):
                     x, r = batch(c, self.coord.pipe, self.coord.data, op['seed'], micro)
-                    loss_fn(self.model(x), r, micro_rows(c, micro)).backward()
+                    (loss_fn(self.model(x), r, micro_rows(c, micro)) * (c.get('loss_scale') or 1.0)).backward()
                 simdist.set_phase(f'op{i}:train/ddp')
                 for p in self.model.parameters():
+                    if c.get('loss_scale'):
+                        p.grad /= c['loss_scale']          # unscaled before the preconditioner sees them (documented AMP flow)
                     if c['data'] > 1:
                         dist.all_reduce(p.grad, group=self.dp_g)
                         p.grad /= c['data']
@@ -240,6 +244,10 @@ def run_reference(case, program, stage=0, observe=()):
     model = _FullStage(case, stage)
     kw = dict(compute_method='eigen', compute_eigenvalue_outer_product=case.get('prediv', False),
               accumulation_steps=case.get('accum', 1), update_factors_in_hook=case.get('in_hook', True))
+    if case.get('loss_scale'):
+        kw['grad_scaler'] = (lambda s=case['loss_scale']: s)
+    if case.get('factor_dtype'):
+        kw['factor_dtype'] = kmodel.dt(case['factor_dtype'])
     for k in HP_KEYS:
         if k in case.get('hp', {}):
             kw[k] = hp_callable(case['hp'][k])
@@ -256,9 +264,9 @@ def run_reference(case, program, stage=0, observe=()):
             bdim = 1 if case.get('seq') else 0          # the batch dimension ([seq, batch, hidden] inputs)
             y = model(torch.cat(xs, bdim))
             nrow = micro_rows(case, micro)
-            sum(loss_fn(yc, r, nrow) for yc, r in zip(y.split(nrow, bdim), rs)).backward()
+            (sum(loss_fn(yc, r, nrow) for yc, r in zip(y.split(nrow, bdim), rs)) * (case.get('loss_scale') or 1.0)).backward()
         for p in model.parameters():
-            p.grad /= case['data'] * case.get('accum', 1)
+            p.grad /= case['data'] * case.get('accum', 1) * (case.get('loss_scale') or 1.0)
         rec = {'i': i, 'op': 'train', 'before': {n: p.grad.detach().clone() for n, p in model.named_parameters()}}
         pre.step()
         rec['after'] = {n: p.grad.detach().clone() for n, p in model.named_parameters()}
